@@ -219,16 +219,16 @@ _P_MORE = {
     "C05": "PROVED: disconnect / _disconnect_dependent_lines (order of the steps; every dependant of every declared collection, each once). ",
     "C07": "PROVED: validate_interval raises gfapy errors only; the Field_* contracts hold for every string. ",
     "C08": "PROVED: Multiplication.multiply checks requested copy names (count, names carried by or referred to by a line, repeats) before anything is changed, and raises nothing afterwards; FieldArray._vpush / Multiline.add refuse a contradicting header value before writing; the tag loops of SameID write nothing before the check has passed. ",
-    "C09": "PROVED: Finders._search_duplicate finds the line an arriving line collides with by record type and identifier; the instance replaced by a later line is detached, so that renaming it cannot touch the registry. ",
+    "C09": "PROVED: Finders._search_duplicate finds the line an arriving line collides with by record type and identifier; the instance replaced by a later line is detached, so that renaming it cannot touch the registry; the names computed for copies are fresh (ComputeCopyNames). ",
     "C12": "PROVED: Link.is_compatible / _direct / _complement; Finders._search_duplicate hands a link to the link search. ",
     "C13": "PROVED: Segment._subclass: GFA1 syntax iff two fields precede the maximal run of tag-looking fields, GFA2 iff three, FormatError otherwise (descending loop, all numbers of fields), and its tag test accepts the tags of every datatype A i f Z J H B. ",
     "C14": "PROVED: Link.is_compatible / _direct / _complement (the link a path step asks for is found whatever side leaves the overlap unspecified). ",
-    "C15": "PROVED: Multiplication.multiply as orchestrator, for every factor, list of copy names and distribution setting: factor < 0 refused, 0 = one removal, 1 = nothing, k >= 2 = one division of the counts by k, k-1 clones named by the requested (checked) or computed names in order, one distribution iff a policy is given (two loop invariants; callees as ghost events, see assumptions); __divide_counts sets each of KC/RC/FC that the line carries once to value div factor. ",
+    "C15": "PROVED: Multiplication.multiply as orchestrator, for every factor, list of copy names and distribution setting: factor < 0 refused, 0 = one removal, 1 = nothing, k >= 2 = one division of the counts by k, k-1 clones named by the requested (checked) or computed names in order, one distribution iff a policy is given (two loop invariants; callees as ghost events, see assumptions); __divide_counts sets each of KC/RC/FC that the line carries once to value div factor; __divide_segment_and_connection_counts divides the counts of the segment once and of every edge exactly once (an edge of the segment with itself is listed twice); __clone_segment_and_connections makes one connected copy of the segment and exactly one connected clone per edge, in which every end that was the segment is the copy, a named edge carries a fresh name and the originals are untouched; _compute_copy_names returns factor-1 pairwise distinct names none of which is carried or referred to by a line (for loop with an inner while loop). ",
     "C16": "PROVED: n_dovetails, n_containments, n_internals = (sum over the segments of the sizes of the corresponding collections) div 2, n_dead_ends = number of empty dovetail collections (loop invariants over a recursive sum, all numbers of segments); the sum is twice the number of records by the double-counting lemma collections_sum_twice (Lean), given the reference-graph invariant of C02. ",
     "C17": "PROVED: the tag loops of SameID: a tag the new line does not define is imported with the stored value under the stored DATATYPE (declared before the value is set), a tag both define must agree (false values are values), all numbers of tags. ",
-    "C18": "PROVED: Writer.field_to_s: at level >= 2 the text that is written has been validated whatever the stored value was (text or decoded value); Writer.to_list marks a line with an unwritable field; FieldData._set_existing_field validates at level 3 before storing. ",
-    "C19": "PROVED: Cloning.clone copies every field by kind (reference -> identifier text, JSON -> round trip, array / list / text / position -> fresh object; loop invariant over all fields), hands the copy to the constructor with version and dialect of the original, gives the clone a datatype table of its own and neither owner nor collections. ",
-    "C20": "PROVED: _set_existing_field drops the datatype of a tag exactly when None is assigned to a tag that has a value; Writer.field_to_s / to_list; DeleteTag for four receiver classes. ",
+    "C18": "PROVED: Writer.field_to_s: at level >= 2 the text that is written has been validated whatever the stored value was (text or decoded value); Writer.to_list marks a line with an unwritable field; FieldData._set_existing_field validates at level 3 before storing; the decoded value of a list of identifiers is valid iff it is not empty and every element is an identifier (loop invariant). ",
+    "C19": "PROVED: Cloning.clone copies every field by kind (reference -> identifier text, JSON -> round trip, array / list / text / position -> fresh object; loop invariant over all fields), hands the copy to the constructor with version and dialect of the original, gives the clone a datatype table of its own and neither owner nor collections; Line.__eq__ is true iff record type and field names agree and every field holds equal values or is written the same way. ",
+    "C20": "PROVED: _set_existing_field drops the datatype of a tag exactly when None is assigned to a tag that has a value; Writer.field_to_s / to_list; DeleteTag for four receiver classes; FieldData.set by case (a new tag is stored together with the default datatype of its value, every refusal precedes every write); the table of default datatypes holds the documented entries (finite table). ",
 }
 for _p, _t in _P_MORE.items():
     if _p in _P:
